@@ -142,6 +142,33 @@ def fco2_sweep(name, concs):
             "bounds": [{"at": to_num(369.41), "value": to_num(1.0)}]}
 
 
+def fco2_ref_sweep(name, concs, ref, later):
+    """the factor with a user-specified reference concentration (CO2(ref_concentration=ref)): 1 at the reference, non-decreasing"""
+    import scenario as S
+    import scenlib as L
+    from aquacrop.timestep.reset_initial_conditions import reset_initial_conditions
+    vals = []
+    for x in concs:
+        sc = L.scenario(name, "SandyLoam", seed=1, seasons=2 if later else 1, co2={"constant_conc": True, "current_concentration": float(x), "ref_concentration": float(ref)})
+        m = S.make_model(sc)
+        try:
+            m._initialize()
+        except AssertionError:
+            return None
+        if later:
+            cs = m._clock_struct
+            if int(cs.n_seasons) < 2:
+                return None
+            cs.season_counter = 1
+            cs.step_start_time = cs.planting_dates[1]
+            reset_initial_conditions(cs, m._init_cond, m._param_struct, m._weather, m.crop)
+            vals.append(float(m._param_struct.Seasonal_Crop_List[1].fCO2))
+        else:
+            vals.append(float(m._param_struct.Seasonal_Crop_List[0].fCO2))
+    return {"f": "fCO2.ref%d%s" % (int(ref), ".laterSeason" if later else ""), "crop": name, "kind": "mono", "dir": "nondec", "lo": to_num(0.5), "hi": to_num(3.0), "pts": pts(concs, vals),
+            "x": {"ref": to_num(ref)}, "bounds": [{"at": to_num(ref), "value": to_num(1.0)}]}
+
+
 def fco2_later_season_sweep(name, concs):
     """the same factor as the model recomputes it at the start of every later season (timestep/reset_initial_conditions.py has its own copy
     of the formula): two-season window, initialised, then the season-start reset of season 2 is called as update_time does"""
@@ -177,4 +204,6 @@ def fco2_worker(args):
     name, concs = args[0], args[1]
     if len(args) > 2 and args[2] == "later":
         return fco2_later_season_sweep(name, concs)
+    if len(args) > 2 and isinstance(args[2], (list, tuple)):
+        return fco2_ref_sweep(name, concs, args[2][0], args[2][1])
     return fco2_sweep(name, concs)
